@@ -1,5 +1,6 @@
 """C05 Detailed placement never worsens wirelength."""
 import tracecheck
+import vlib
 from checks.common import run_plan, first, all_of, moved
 
 LEVEL = "model_checking"
@@ -19,6 +20,14 @@ def nontrivial(chk, st, rid, evs):
 
 
 def run(chk):
+    # design level: accepted moves decrease the frozen-offset value; the true wirelength follows it while no cell is re-oriented
+    res = vlib.tlc_ok(vlib.tlc("DetailedWl", cfg="DetailedWl_any", workers=8, coverage=True, timeout=900), "DetailedWl_any")
+    if res["violated"]:
+        raise vlib.FrameworkError("DetailedWl (no polarities) violates its properties: %s" % res["violated"])
+    chk.add_tlc(res, "tlc wirelength under accepted swap/insert moves, cells without polarity (ValueDecreases, WlFollowsValue, WlNeverWorse hold)")
+    polar = vlib.tlc("DetailedWl", cfg="DetailedWl_polar", workers=8, timeout=900)
+    chk.step("design-level counterexample of the open finding frozen-pin-offsets-after-reorientation (polarised cells)",
+             WlNeverWorse_violated=bool(polar["violated"]), distinct=polar["distinct"])
     plan = [
         # without polarities no cell is ever re-oriented: any increase is a violation (the open finding cannot match)
         dict(flavour="asan-ubsan", scen="det", runs=(900, 25000), opts={"cb": 1, "polar": 0, "maxNets": 16, "varyScale": 1}),
